@@ -13,16 +13,19 @@
 EXTENDS CodecUniv, Json, IOUtils, SequencesExt, FiniteSetsExt
 Obs == JsonDeserialize(IOEnv.OBS_FILE)
 Rows(u) == Obs.rows
-FormOf(way) == IF way = "json_str" THEN "str" ELSE "obj"
+\* json / json_str pass allow_partial only when the value is partial; the *_partial ways and load (= pg.save + pg.load)
+\* always load with allow_partial=True
+JsonWays == {"json", "json_str", "json_partial", "json_str_partial", "load"}
+FormOf(way) == IF way \in {"json_str", "json_str_partial", "load"} THEN "str" ELSE "obj"
 \* only the JSON ways use the marker scheme; pickle and deepcopy have no collision classes
 \* a value that cannot even be constructed with the API is filed under its own collision class, whatever the way
 RowClass(r) == IF ~r.built THEN ClassOf(r.v, "obj")
-               ELSE IF r.way \in {"json", "json_str"} THEN ClassOf(r.v, FormOf(r.way)) ELSE "plain"
+               ELSE IF r.way \in JsonWays THEN ClassOf(r.v, FormOf(r.way)) ELSE "plain"
 RowBad(r) == ~(r.ok /\ r.back = r.v /\ r.eq /\ r.type /\ r.hash /\ r.tree)
 Clause(r) == IF ~r.ok THEN "raises" ELSE IF r.back # r.v THEN "value" ELSE IF ~r.eq THEN "eq"
              ELSE IF ~r.type THEN "type" ELSE IF ~r.hash THEN r.hashwhy ELSE "tree"
 Sample(S) == LET q == SetToSeq(S) IN SubSeq(q, 1, IF Len(q) < 5 THEN Len(q) ELSE 5)
-Ways == {"json", "json_str", "pickle", "deepcopy"}
+Ways == JsonWays \cup {"pickle", "deepcopy"}
 Laws(u) ==
   LET rows == Rows(u)
       n == Len(rows)
